@@ -79,30 +79,28 @@ PROPS["C13"] = {
     "claim": "Every CBMC-checked condition (harness assertions: count, numbering, law against a reference, clamp; plus every panic/overflow check compiled into BackoffStrategyIter::next and the std Duration code it calls) holds for ALL steps and maximum delays (full u64 s + u32 ns) at the listed attempt counts; bounded model checking with unwinding assertions on, so the claim is exact within the bounds and says nothing beyond them.",
     "note": "Trusted: Kani/CBMC/cadical; std's Duration::checked_mul as the reference for the linear law; the f64 product of the exponential law is compared against the same f64 product on the exactly computed integer power. Kani models the dev profile; counterexamples are replayed natively in dev and release-like profiles before being reported.",
     "obligations": [
-        K("hx-client", "c13::c13_constant_a0", Q, bounds="attempts=0; step,max symbolic (u64 s, u32 ns<1e9)"),
-        K("hx-client", "c13::c13_constant_a3", Q, bounds="attempts=3; step,max symbolic"),
-        K("hx-client", "c13::c13_constant_a6", T, bounds="attempts=6; step,max symbolic"),
-        K("hx-client", "c13::c13_linear_a0", Q, bounds="attempts=0; step,max symbolic"),
-        K("hx-client", "c13::c13_linear_a1", Q, bounds="attempts=1; step,max symbolic"),
-        K("hx-client", "c13::c13_linear_a3", Q, bounds="attempts=3; step,max symbolic"),
-        K("hx-client", "c13::c13_linear_a6", T, bounds="attempts=6; step,max symbolic"),
+        K("hx-client", "c13::c13_constant_a0", Q, bounds="attempts=0; step,max symbolic (u64 s, u32 ns<1e9)", mem_gb=4),
+        K("hx-client", "c13::c13_constant_a3", Q, bounds="attempts=3; step,max symbolic", mem_gb=4),
+        K("hx-client", "c13::c13_constant_a6", T, bounds="attempts=6; step,max symbolic", mem_gb=4),
+        K("hx-client", "c13::c13_linear_a0", Q, bounds="attempts=0; step,max symbolic", mem_gb=4),
+        K("hx-client", "c13::c13_linear_a1", Q, bounds="attempts=1; step,max symbolic", mem_gb=4),
+        K("hx-client", "c13::c13_linear_a3", Q, bounds="attempts=3; step,max symbolic", mem_gb=4),
+        K("hx-client", "c13::c13_linear_a6", T, bounds="attempts=6; step,max symbolic", mem_gb=4),
         # exponential (A): symbolic step/max, structural properties (see c13.rs)
-        K("hx-client", "c13::c13_expA_f0_a3", Q, bounds="factor=0, attempts=3; step,max symbolic; structural"),
-        K("hx-client", "c13::c13_expA_f2_a3", Q, bounds="factor=2, attempts=3; step,max symbolic; structural"),
+        K("hx-client", "c13::c13_expA_f0_a3", Q, bounds="factor=0, attempts=3; step,max symbolic; structural", mem_gb=4),
+        K("hx-client", "c13::c13_expA_f2_a3", Q, bounds="factor=2, attempts=3; step,max symbolic; structural", mem_gb=4),
         K("hx-client", "c13::c13_expA_f10_a4", T, bounds="factor=10, attempts=4; step,max symbolic; structural", timeout=1800),
-        K("hx-client", "c13::c13_expA_f2p32_a3", Q, bounds="factor=2^32, attempts=3 (power overflows at attempt 3); step,max symbolic"),
-        K("hx-client", "c13::c13_expA_fmax_a3", Q, bounds="factor=u64::MAX, attempts=3; step,max symbolic"),
+        K("hx-client", "c13::c13_expA_f2p32_a3", Q, bounds="factor=2^32, attempts=3 (power overflows at attempt 3); step,max symbolic", mem_gb=4),
+        K("hx-client", "c13::c13_expA_fmax_a3", Q, bounds="factor=u64::MAX, attempts=3; step,max symbolic", mem_gb=4),
         K("hx-client", "c13::c13_expA_f2_a66", T, bounds="factor=2, attempts=66 (2^64 overflows u64 at attempt 65); step,max symbolic", timeout=3400, mem_gb=16),
         K("hx-client", "c13::c13_expA_f10_a21", T, bounds="factor=10, attempts=21 (10^20 overflows at attempt 21); step,max symbolic", timeout=3400, mem_gb=16),
-        K("hx-client", "c13::c13_expA_symbolic_factor_a2", T, bounds="factor: every u64, attempts=2; step,max symbolic", timeout=3400),
         # exponential (B): the law against the reference, step from a menu of 9 concrete values, max symbolic
-        K("hx-client", "c13::c13_expB_f0_a3", Q, bounds="factor=0, attempts=3; step in STEP_MENU (9 values incl. 0, 1ns, Duration::MAX); max symbolic"),
-        K("hx-client", "c13::c13_expB_f1_a3", Q, bounds="factor=1, attempts=3; step in STEP_MENU; max symbolic"),
-        K("hx-client", "c13::c13_expB_f2_a4", Q, bounds="factor=2, attempts=4; step in STEP_MENU; max symbolic"),
-        K("hx-client", "c13::c13_expB_f3_a5", T, bounds="factor=3, attempts=5; step in STEP_MENU; max symbolic"),
+        K("hx-client", "c13::c13_expB_f0_a3", Q, bounds="factor=0, attempts=3; step in STEP_MENU (9 values incl. 0, 1ns, Duration::MAX); max symbolic", mem_gb=4),
+        K("hx-client", "c13::c13_expB_f1_a3", Q, bounds="factor=1, attempts=3; step in STEP_MENU; max symbolic", mem_gb=4),
+        K("hx-client", "c13::c13_expB_f2_a4", Q, bounds="factor=2, attempts=4; step in STEP_MENU; max symbolic", mem_gb=4),
+        K("hx-client", "c13::c13_expB_f3_a5", T, bounds="factor=3, attempts=5; step in STEP_MENU; max symbolic", mem_gb=4),
         K("hx-client", "c13::c13_expB_f10_a21", T, bounds="factor=10, attempts=21; step in STEP_MENU; max symbolic", timeout=3000),
-        K("hx-client", "c13::c13_expB_f2_a66", T, bounds="factor=2, attempts=66; step in STEP_MENU; max symbolic", timeout=3000),
-        K("hx-client", "c13::c13_expB_fmax_a3", Q, bounds="factor=u64::MAX, attempts=3; step in STEP_MENU; max symbolic"),
+        K("hx-client", "c13::c13_expB_fmax_a3", Q, bounds="factor=u64::MAX, attempts=3; step in STEP_MENU; max symbolic", mem_gb=4),
     ],
     "functions": ["selium::keep_alive::backoff_strategy::BackoffStrategy::{constant,linear,exponential,with_step,with_max_attempts,with_max_duration,into_iter}",
                   "<BackoffStrategyIter as Iterator>::next"],
@@ -162,9 +160,6 @@ PROPS["C05"] = {
         _p("c05::c05_rt_batch_l8_e0", T, "BatchMessage, 8 bytes"),
         _p("c05::c05_rt_message_h0_l0", Q, "Message, headers None, empty payload"),
         _p("c05::c05_rt_message_h0_l3", Q, "Message, headers None, 3 symbolic bytes, 1 trailing byte"),
-        _p("c05::c05_rt_message_h1_l1", T, "Message, headers Some({}), 1 byte", timeout=3000, mem_gb=14),
-        _p("c05::c05_rt_message_h2_l2", T, "Message, headers {cid:1}, 2 bytes", timeout=3000, mem_gb=14),
-        _p("c05::c05_rt_message_h3_l1", T, "Message, headers {cid:7, req_id:5}, 1 byte", timeout=3000, mem_gb=14),
         _p("c05::c05_rt_error_l0", Q, "Error, symbolic code, empty message"),
         _p("c05::c05_rt_error_l3", T, "Error, symbolic code, 3 symbolic bytes, 2 trailing"),
         _p("c05::c05_rt_ok", Q, "Ok frame, 3 symbolic trailing bytes"),
@@ -212,9 +207,6 @@ PROPS["C06"] = {
         _p("c06::c06_frame_t2_b9", T, "complete RegisterReplier frame, 9 arbitrary payload bytes", timeout=3000, mem_gb=14),
         _p("c06::c06_frame_t3_b17", T, "complete RegisterRequestor frame, 17 arbitrary payload bytes", timeout=3000, mem_gb=14),
         _p("c06::c06_frame_t4_b0", Q, "complete Message frame, 0 payload bytes", timeout=1800),
-        _p("c06::c06_frame_t4_b1", T, "complete Message frame, 1 arbitrary payload byte", timeout=2400),
-        _p("c06::c06_frame_t4_b9", T, "complete Message frame, 9 arbitrary payload bytes (header-map count <= 1)", timeout=3000, mem_gb=14),
-        _p("c06::c06_frame_t4_b17", T, "complete Message frame, 17 arbitrary payload bytes (header-map count <= 1)", timeout=3000, mem_gb=14),
         _p("c06::c06_frame_t5_b4", Q, "complete BatchMessage frame, 4 arbitrary bytes"),
         _p("c06::c06_frame_t6_b4", Q, "complete Error frame, 4 arbitrary bytes", timeout=1800),
         _p("c06::c06_frame_t6_b12", T, "complete Error frame, 12 arbitrary bytes", timeout=3000, mem_gb=14),
